@@ -209,7 +209,6 @@ BinaryOps == {"||", "&&", "==", "!=", "<", "<=", ">", ">=", "->", "<>", "+", "-"
 PrecTotal == \A i \in 1..Len(XGoTable) : (XGoTable[i].prec > 0) <=> (XGoTable[i].sp \in BinaryOps)
 KeywordsComplete == { XGoTable[i].sp : i \in { j \in 1..Len(XGoTable) : XGoTable[j].cls = "keyword" } } = { kw[1] : kw \in KwTable }
 OperatorsAreOps == \A d \in {"xgo", "tpl"} : \A i \in 1..Len(Table(d)) : (Table(d)[i].cls = "operator") <=> Table(d)[i].op
-\* the operators the two languages share are spelled alike (the shared-lexeme domain of C32)
 TableOK == SpellingsUnique /\ SpellingsKnown /\ PrecImpliesOperator /\ PrecTotal /\ KeywordsComplete /\ OperatorsAreOps
 
 TExport == pc = "done" =>
